@@ -409,7 +409,10 @@ def oracle(case):
         if 0 < k < len(raw):
             probes.append(("prefix%d" % k, secret, raw[:k]))
     probes += [("text", secret, "not a session"), ("b64", secret, base64.b64encode(b"\x01\x02random\xff" * 3).decode()),
-               ("quote", secret, '"'), ("uni", secret, "žž")]
+               ("quote", secret, '"'), ("uni", secret, "žž"),
+               # text that no codec encodes: lone surrogates, alone and inside an otherwise valid value
+               ("surrogate", secret, "\ud800"), ("surrogate", secret, raw[:3] + "\udce9" + raw[4:]),
+               ("surrogate", secret, raw + "\udfff"), ("nul", secret, "\x00"), ("long", secret, "A" * 5000)]
     # cookies made under the right secret whose payload is JSON but not an object: documented error, nothing restored
     for j, other_val in enumerate(([1, "x"], "text", 7, None)):
         packed = json.dumps(other_val).encode()
